@@ -13,7 +13,8 @@ RULE = ("exhaustive: every symbol of every DNA encoding (ASCII: the ten letters 
         "and lower case), all codon pairs (thorough), random concatenations in ragged lists with empty rows. "
         "Non-trivial = contains lower case or N, or a '-' strand, or >= 2 codons")
 EXHAUSTIVE = {"quick": False, "thorough": False}
-MODEL_OPS = {"rc", "strand", "translate"}
+MODEL_OPS = {"rc", "strand", "translate", "transcripts"}
+CASE_TIMEOUT_S = 60
 PARALLEL = 0
 ASSUMPTIONS = [
     "NumPy fancy indexing lookup[codes] is element-wise (modelled as omap over the tabulated table)",
@@ -217,10 +218,38 @@ def oracle(c):
         if op == "translate_enc":   # already alphabet-encoded input: the code refuses loudly (EncodingException)
             return {"rows_or_encoding_error": out}
         return {"rows": out}
+    if op == "transcripts":
+        if c["via"] == "gtf" and any(e[2] == e[3] for e in c["exons"]):
+            return SKIP            # a GTF line cannot express an empty exon
+        return _transcripts_expect(c["seq"], c["exons"])
     raise ValueError(op)
 
 
+def _transcripts_expect(seq, ex):
+    seq = _enc_view("ACGTN", seq)
+    if seq is None or not ex:
+        return SKIP
+    groups = []
+    for t, st, a, b in ex:
+        if not (0 <= a <= b <= len(seq)) or st not in (43, 45):
+            return SKIP
+        if groups and groups[-1][0] == t:
+            if groups[-1][1] != st or a < groups[-1][3]:
+                return SKIP        # one strand per transcript, exons in ascending order
+            groups[-1][2].extend(seq[a:b])
+            groups[-1][3] = b
+        else:
+            groups.append([t, st, list(seq[a:b]), b])
+    return {"names": [f"t{g[0]}" for g in groups], "rows": [g[2] if g[1] == 43 else _revcomp(g[2]) for g in groups]}
+
+
 def agree(c, got, exp):
+    if c["op"] == "transcripts" and c["via"] == "gtf" and isinstance(got, dict) and "bounds" in got:
+        # judged against the bounds the package itself parsed from the file
+        if len(got["bounds"]) != len(c["exons"]):
+            return False
+        e2 = _transcripts_expect(c["seq"], [[e[0], e[1], b[0], b[1]] for e, b in zip(c["exons"], got["bounds"])])
+        return isinstance(e2, dict) and got.get("names") == e2["names"] and got.get("rows") == e2["rows"]
     if "rows_or_encoding_error" in exp:
         if isinstance(got, dict) and got.get("err") == "encoding":
             return True
@@ -317,10 +346,70 @@ def impl(c):
                 r = translate_dna_to_protein(texts)
             rows, enc = _rows_out(r, None)
             return {"rows": rows}
+        if op == "transcripts":
+            from bionumpy.sequence.genes import get_transcript_sequences
+            ref = _text(c["seq"])
+            if c["via"] == "gtf":
+                entries = _gtf_entries(c["exons"])
+            else:
+                entries = _DuckEntries([_DuckExon(f"t{t}", chr(st), a, b) for t, st, a, b in c["exons"]])
+            r = get_transcript_sequences(entries, ref)
+            names = [x.to_string() if hasattr(x, "to_string") else str(x) for x in r.name]
+            rows, enc = _rows_out(r.sequence, None)
+            out = {"names": names, "rows": rows}
+            if c["via"] == "gtf":
+                # the exon bounds as the package parsed them (whether GTF coordinates are shifted is C02's question)
+                out["bounds"] = [[int(a), int(b)] for a, b in zip(np.asarray(entries.start), np.asarray(entries.stop))]
+            return out
     except Err:
         return {"err": "encoding"}
     except Exception as e:
         return {"err": "other:" + type(e).__name__}
+
+
+class _DuckExon:
+    """a plain-Python stand-in for one GTF exon row (what genes.py reads: transcript_id, strand, start, stop)"""
+    def __init__(self, tid, strand, start, stop):
+        self.transcript_id, self.strand, self.start, self.stop = tid, strand, start, stop
+
+
+class _DuckExons:
+    def __init__(self, es):
+        self._es = es
+        self.start = np.array([e.start for e in es], dtype=int)
+        self.stop = np.array([e.stop for e in es], dtype=int)
+
+    def __iter__(self):
+        return iter(self._es)
+
+
+class _DuckEntries:
+    def __init__(self, es):
+        self._es = es
+
+    def __len__(self):
+        return len(self._es)
+
+    def get_exons(self):
+        return _DuckExons(self._es)
+
+
+_TMP = None
+
+
+def _gtf_entries(exons):
+    """real GTFEntry objects read back from a GTF file (1-based closed coordinates)"""
+    global _TMP
+    import atexit, os, shutil, tempfile
+    import bionumpy as bnp
+    if _TMP is None:
+        _TMP = tempfile.mkdtemp(prefix="c14_")
+        atexit.register(shutil.rmtree, _TMP, True)
+    path = os.path.join(_TMP, f"t{os.getpid()}.gtf")
+    with open(path, "w") as fh:
+        for i, (t, st, a, b) in enumerate(exons):
+            fh.write(f'chr1\tsrc\texon\t{a + 1}\t{b}\t.\t{chr(st)}\t.\tgene_id "g{t}"; transcript_id "t{t}"; exon_id "e{i}";\n')
+    return bnp.open(path).read()
 
 
 # --------------------------------------------------------------------------- Lean driver request
@@ -342,7 +431,9 @@ def model_request(c):
                 "ivs": c["ivs"]}
     if op == "translate":
         return {"op": "translate", "rows": c["rows"]}
-    return None   # translate_enc: implementation vs oracle only
+    if op == "transcripts" and c["via"] == "duck":
+        return {"op": "transcripts", "codes": _codes("ACGTN", c["seq"]), "exons": c["exons"]}
+    return None   # translate_enc, transcripts read back from a GTF file: implementation vs oracle only
 
 
 # --------------------------------------------------------------------------- cases
@@ -414,6 +505,45 @@ def cases(tier, rng):
                 b = rng.randrange(a, len(ss[ch]) + 1)
                 ivs.append([ch, a, b, rng.choice([43, 45])])
             yield {"op": "strand", "enc": enc, "via": via, "seqs": ss, "ivs": ivs}
+    # 4b. narrow shapes: an empty interval (start == stop) in first / middle position; interval sets and ragged
+    #     inputs with UNEQUAL row lengths whose total equals n_rows * len(rows[0]) (looks like a matrix by size)
+    for enc in PROP_ENCS:
+        A = _alpha(enc)
+        for _ in range(60 if big else 12):
+            s = [rng.choice(A) for _ in range(rng.choice([4, 6, 9]))]
+            n = len(s)
+            for lens in ([2, 1, 3], [1, 0, 2], [3, 0, 6], [2, 4, 0], [1, 1, 0, 2], [0, 0, 3, 1, 1][: rng.choice([3, 5])]):
+                if max(lens) > n:
+                    continue
+                ivs = []
+                for l in lens:
+                    a = rng.randrange(n - l + 1)
+                    ivs.append([0, a, a + l, rng.choice([43, 45])])
+                yield {"op": "strand", "enc": enc, "via": "dna", "seqs": [s], "ivs": ivs}
+                if enc == "ACGTN":
+                    yield {"op": "strand", "enc": enc, "via": "genomic", "seqs": [s], "ivs": ivs}
+                rows = [[rng.choice(A) for _ in range(l)] for l in lens]
+                yield {"op": "rc", "enc": enc, "rows": rows, "shape": rng.choice(["ragged", "entry"])}
+    # 4c. transcript sequences (sequence/genes.py): exons grouped by transcript, '-' transcripts reverse-complemented
+    A = _alpha("ACGTN")
+    for _ in range(600 if big else 80):
+        s = [rng.choice(A) for _ in range(rng.choice([1, 2, 5, 9, 14]))]
+        n = len(s)
+        exons, t = [], 0
+        for _ in range(rng.choice([1, 1, 2, 3, 4])):
+            st = rng.choice([43, 45])
+            pos = 0
+            for _ in range(rng.choice([1, 1, 2, 3])):
+                if pos > n:
+                    break
+                a = rng.randrange(pos, n + 1)
+                b = min(n, a + rng.choice([0, 1, 1, 2, 3, 5]))
+                exons.append([t, st, a, b])
+                pos = b
+            t += 1
+        yield {"op": "transcripts", "seq": s, "exons": exons, "via": "duck"}
+    for exons in ([[0, 43, 0, 3], [0, 43, 4, 6], [1, 45, 1, 4]], [[0, 45, 0, 1]]):
+        yield {"op": "transcripts", "seq": [ord(ch) for ch in "ACGTNACGTN"], "exons": exons, "via": "gtf"}
     # 5. translation: all 64 codons, upper and lower and mixed case; pairs; concatenations; ragged with empty rows
     up = [ord(ch) for ch in "TCAG"]
     codons = [list(cd) for cd in itertools.product(up, repeat=3)]
@@ -422,6 +552,21 @@ def cases(tier, rng):
         yield {"op": "translate", "rows": [[b + 32 for b in cd]], "via": "list"}
         yield {"op": "translate", "rows": [[b + 32 * rng.randrange(2) for b in cd]], "via": rng.choice(["list", "entry", "ragged"])}
         yield {"op": "translate_enc", "rows": [cd], "via": "enc:" + rng.choice(["ACGT", "ACGTN"])}
+    # in-frame stop codons (TAA / TAG / TGA), upper and lower case, first / middle / last codon, empty rows around
+    stops = [[84, 65, 65], [84, 65, 71], [84, 71, 65]]
+    for stp in stops:
+        for low in (False, True):
+            sc = [b + 32 for b in stp] if low else stp
+            for pos in (0, 1, 2):
+                row = []
+                for i in range(3):
+                    row += sc if i == pos else rng.choice(codons)
+                yield {"op": "translate", "rows": [row], "via": "list"}
+                yield {"op": "translate", "rows": [[], row, list(rng.choice(codons)), []], "via": rng.choice(["list", "entry", "ragged"])}
+            yield {"op": "translate", "rows": [sc + sc, sc], "via": "list"}
+    # unequal rows whose total equals n_rows * len(rows[0])
+    for lens in ([3, 0, 6], [6, 9, 3], [3, 6, 0], [6, 0, 12, 6]):
+        yield {"op": "translate", "rows": [[b for _ in range(l // 3) for b in rng.choice(codons)] for l in lens], "via": rng.choice(["list", "entry", "ragged"])}
     yield {"op": "translate", "rows": [[b for cd in codons for b in cd]], "via": "list"}
     yield {"op": "translate", "rows": codons, "via": "list"}
     pairs = [(a, b) for a in codons for b in codons]
@@ -446,6 +591,8 @@ def nontrivial(c):
         return any(b >= 97 or b in (78,) for b in flat) or len(c["rows"]) >= 2
     if op == "strand":
         return any(iv[3] == 45 and iv[2] > iv[1] for iv in c["ivs"])
+    if op == "transcripts":
+        return any(e[1] == 45 for e in c["exons"]) or len(c["exons"]) >= 2
     return sum(len(r) for r in c["rows"]) >= 6 or any(b >= 97 for r in c["rows"] for b in r)
 
 
@@ -469,4 +616,12 @@ def finding_key(c, got, exp):
         if c["enc"] == "ASCII" and any(b >= 97 for b in flat) and _has_nul(got):
             return "strand:ascii-lower-case"
         return f"strand:{c['via']}:{c['enc']}"
+    if op == "transcripts":
+        err = str(got.get("err", "")) if isinstance(got, dict) else ""
+        if c["via"] == "gtf" and err == "other:TypeError":
+            return "transcripts:gtf-entry-iteration-TypeError"
+        n_tr = len(exp["rows"]) if isinstance(exp, dict) else 0
+        if err.startswith("other:") and n_tr >= sum(e[3] - e[2] for e in c["exons"]):
+            return "transcripts:raises-when-transcripts>=extracted-letters"
+        return "transcripts:" + c["via"]
     return "translate:" + c.get("via", "list").split(":")[0]
